@@ -9,12 +9,18 @@ package main
 //    variable of ONE persistent eval.State (one goroutine) - and the whole relation table is
 //    recorded under recover(): object.Cmp, object.Equals, Map.Set+Get on the objects; < <= > >= ==
 //    != {a:1}[b] from source through repl.EvalOne at top level and inside functions (parameters =
-//    registers for integers: register/register, register/plain, plain/register); min, max; the
-//    value against an independently built copy; one map holding every value as key.  Seeded random
+//    registers for integers: register/register, register/plain, plain/register; an operand that
+//    lives in the frame of another call: a variable of an enclosing closure call / of a caller two
+//    recursion levels up, which the call in between has read before); min, max; the value against an
+//    independently built copy and the constructed object against the value of its source text; one
+//    map holding every value as key (sized for them / grown from the empty map).  Seeded random
 //    universes follow as further batches.
 //    Values have a history (tags `how`, `ep`, see OrderLaws.tla): a container may be built as a
 //    "was larger, shrank" twin (map with 5 more entries deleted again / NewMapSize for more pairs
-//    than keys / literal with repeated keys; array as a slice of a longer one), and the values of a
+//    than keys / literal with repeated keys / grown from the empty map one assignment at a time /
+//    the sum of two maps; array as a slice of a longer one / grown by appending), a number may be
+//    written in another notation (2^63 as the digits 9223372036854775808, hex, exponent, grouped
+//    digits, -9223372036854775808), and the values of a
 //    universe may be made in several epochs of the session, separated by events (a top level
 //    function redefined, a constant deleted and rebound, many functions defined and redefined, each
 //    followed by a call).  OrderLaws!HistoryUniverse is such a session; half of the random
@@ -24,7 +30,8 @@ package main
 //    TLC names every broken law instance; each is re-evaluated on the real code (c12ReplayInstance)
 //    and becomes c.Fail with a narrow signature <feature of the values>-<law family>.  Entries that
 //    differ from GrolOrder are evidence (`model_disagreement`), never a violation.
-// 4. binding self-test: a table with one corrupted entry must be rejected.
+// 4. binding self-test: a table with one corrupted entry (the last batch of the table run, src =
+//    "selftest") must be reported as broken.
 //
 // Debugging aid: C12_DUMP=<file> keeps the recorded tables (the input of the table run).
 
@@ -62,7 +69,9 @@ type c12Val struct {
 	V   json.RawMessage `json:"v,omitempty"`
 	Src string          `json:"src,omitempty"` // functions: the grol source that produces it
 	// tags the order ignores (see OrderLaws.tla "values with a history"):
-	How string `json:"how,omitempty"` // containers: "shrunk" | "dupkeys" (maps), "slice" (arrays)
+	// containers: "shrunk" | "dupkeys" | "grown" | "merged" | "merged_head" | "merged_tail" (maps), "slice" | "grown" (arrays);
+	// numbers, the notation of the literal: "hex" | "under" | "lit" (integers), "intlit" | "exp" (floats)
+	How string `json:"how,omitempty"`
 	Ep  *int   `json:"ep,omitempty"`  // epoch of the session in which the value is made
 }
 
@@ -180,18 +189,82 @@ func c12Matches(want, real c12Val) bool {
 	return want.canon() == real.canon()
 }
 
+// c12FloatNotationOK: the float can be written in that notation ("intlit": a plain digit string, which is a float
+// only when it does not fit an int64; -2^63 written that way is the integer literal of MinInt64).
+func c12FloatNotationOK(f float64, how string) bool {
+	switch how {
+	case "intlit":
+		return f == math.Trunc(f) && math.Abs(f) >= 9223372036854775808.0 && f != -9223372036854775808.0 && math.Abs(f) < 1e30
+	case "exp":
+		return f != 0
+	}
+	return false
+}
+
+// c12Notations are the `how` tags of numbers (the notation of the literal); the others are construction histories.
+var c12Notations = map[string]bool{"hex": true, "under": true, "lit": true, "intlit": true, "exp": true}
+
+// c12Written: the value or one of its parts is a number written in a notation of its own.
+func c12Written(a c12Val) bool {
+	w := false
+	c12Leaves(a, func(l c12Val) { w = w || c12Notations[l.How] })
+	return w
+}
+
+// c12MergeSplit: a merged map of n pairs is the sum of its first k pairs and the others: "merged" halves,
+// "merged_head" the first pair + the rest, "merged_tail" all but the last pair + the last.
+func c12MergeSplit(n int, how string) int {
+	switch {
+	case how == "merged_head" && n > 0:
+		return 1
+	case how == "merged_tail" && n > 0:
+		return n - 1
+	}
+	return (n + 1) / 2
+}
+
+func c12IsMerged(how string) bool { return strings.HasPrefix(how, "merged") }
+
 // c12Source renders a value as grol source text.
-func c12Source(a c12Val) string {
+func c12Source(a c12Val) string { return c12SourceAt(a, 0) }
+
+// c12SourceAt: the source of a value nested `depth` containers deep.  A container with a history is an immediately
+// called function; its local variable is named after the depth, because an assignment inside a nested function
+// literal goes to the variable of that name of the enclosing call.
+func c12SourceAt(a c12Val, depth int) string {
+	m := "zqk" + strconv.Itoa(depth)
 	switch a.T {
 	case "int":
 		i := a.int64()
-		if i == math.MinInt64 {
-			return "(-9223372036854775807-1)"
+		mag := strconv.FormatUint(uint64(i), 10) // digits of |i| (MinInt64: 2^63)
+		if i < 0 {
+			mag = strconv.FormatUint(-uint64(i), 10)
+		}
+		switch a.How {
+		case "hex": // 0x.. (a minus sign in front of it for negative numbers)
+			mag = "0x" + strconv.FormatUint(func() uint64 {
+				if i < 0 {
+					return -uint64(i)
+				}
+				return uint64(i)
+			}(), 16)
+		case "under": // digits grouped by underscores
+			var g []string
+			for len(mag) > 3 {
+				g = append([]string{mag[len(mag)-3:]}, g...)
+				mag = mag[:len(mag)-3]
+			}
+			mag = strings.Join(append([]string{mag}, g...), "_")
+		case "lit": // -9223372036854775808 written as such (the one literal whose digits alone are no integer)
+		default:
+			if i == math.MinInt64 {
+				return "(-9223372036854775807-1)"
+			}
 		}
 		if i < 0 {
-			return "(" + strconv.FormatInt(i, 10) + ")"
+			return "(-" + mag + ")"
 		}
-		return strconv.FormatInt(i, 10)
+		return mag
 	case "float":
 		f := a.float64()
 		switch {
@@ -203,6 +276,16 @@ func c12Source(a c12Val) string {
 			return "(-1.0/0.0)"
 		case f == 0 && math.Signbit(f):
 			return "(-0.0)"
+		}
+		if c12FloatNotationOK(f, a.How) {
+			s := strconv.FormatFloat(math.Abs(f), 'f', 0, 64) // "intlit": all the digits of the integer, no ".0"
+			if a.How == "exp" {
+				s = strconv.FormatFloat(math.Abs(f), 'e', -1, 64)
+			}
+			if f < 0 {
+				return "(-" + s + ")"
+			}
+			return s
 		}
 		s := strconv.FormatFloat(math.Abs(f), 'f', -1, 64)
 		if len(s) > 40 { // very large / very small: exponent form
@@ -227,22 +310,31 @@ func c12Source(a c12Val) string {
 		el := a.elems()
 		parts := make([]string, len(el))
 		for i, e := range el {
-			parts[i] = c12Source(e)
+			parts[i] = c12SourceAt(e, depth+1)
 		}
 		if a.How == "slice" { // the tail of an array of 9 more elements
 			return "[" + strings.Join(append([]string{"0,0,0,0,0,0,0,0,0"}, parts...), ",") + "][9:]"
+		}
+		if a.How == "grown" { // one element appended after the other (an expression: usable when nested)
+			var sb strings.Builder
+			sb.WriteString("func(){" + m + "=[]")
+			for _, p := range parts {
+				sb.WriteString(";" + m + "=" + m + "+[" + p + "]")
+			}
+			sb.WriteString(";" + m + "}()")
+			return sb.String()
 		}
 		return "[" + strings.Join(parts, ",") + "]"
 	case "map":
 		ps := a.pairs()
 		parts := make([]string, len(ps))
 		for i, p := range ps {
-			parts[i] = c12Source(p[0]) + ":" + c12Source(p[1])
+			parts[i] = c12SourceAt(p[0], depth+1) + ":" + c12SourceAt(p[1], depth+1)
 		}
 		switch {
 		case a.How == "shrunk": // five more entries, deleted again (an expression: usable when nested)
 			var sb strings.Builder
-			sb.WriteString("func(){m={" + strings.Join(parts, ","))
+			sb.WriteString("func(){" + m + "={" + strings.Join(parts, ","))
 			for i, pad := range c12Pads {
 				if i > 0 || len(parts) > 0 {
 					sb.WriteString(",")
@@ -251,13 +343,24 @@ func c12Source(a c12Val) string {
 			}
 			sb.WriteString("}")
 			for _, pad := range c12Pads {
-				sb.WriteString(";del(m[" + strconv.Quote(pad) + "])")
+				sb.WriteString(";del(" + m + "[" + strconv.Quote(pad) + "])")
 			}
-			sb.WriteString(";m}()")
+			sb.WriteString(";" + m + "}()")
 			return sb.String()
 		case a.How == "dupkeys" && len(ps) > 0: // the first key four times before the pairs
-			dup := c12Source(ps[0][0]) + ":0,"
+			dup := c12SourceAt(ps[0][0], depth+1) + ":0,"
 			return "{" + dup + dup + dup + dup + strings.Join(parts, ",") + "}"
+		case a.How == "grown": // an empty map that receives the pairs one assignment after the other
+			var sb strings.Builder
+			sb.WriteString("func(){" + m + "={}")
+			for i := range ps {
+				sb.WriteString(";" + m + "[" + c12SourceAt(ps[i][0], depth+1) + "]=" + c12SourceAt(ps[i][1], depth+1))
+			}
+			sb.WriteString(";" + m + "}()")
+			return sb.String()
+		case c12IsMerged(a.How): // the sum of two maps: the leading pairs + the trailing pairs
+			k := c12MergeSplit(len(ps), a.How)
+			return "({" + strings.Join(parts[:k], ",") + "}+{" + strings.Join(parts[k:], ",") + "})"
 		}
 		return "{" + strings.Join(parts, ",") + "}"
 	case "func", "quote", "ext":
@@ -376,7 +479,7 @@ func c12Build(a c12Val, z *c12Sess) (object.Object, error) {
 			}
 			objs = append(objs, o)
 		}
-		if a.How == "slice" { // no object-level API makes a slice: through the interpreter
+		if a.How == "slice" || a.How == "grown" { // no object-level API makes a slice / appends: through the interpreter
 			if st, msg := z.run("zqfn = " + c12Source(a)); st != 0 {
 				return nil, fmt.Errorf("source %q: %s", c12Source(a), msg)
 			}
@@ -390,6 +493,19 @@ func c12Build(a c12Val, z *c12Sess) (object.Object, error) {
 		ps := a.pairs()
 		m := object.NewMapSize(len(ps))
 		switch {
+		case a.How == "grown": // starts as the empty map, whatever it will hold
+			m = object.NewMap()
+		case c12IsMerged(a.How): // the leading pairs as one map, the trailing pairs as another, appended
+			k := c12MergeSplit(len(ps), a.How)
+			left, err := c12Build(c12Map(ps[:k]), z)
+			if err != nil {
+				return nil, err
+			}
+			right, err := c12Build(c12Map(ps[k:]), z)
+			if err != nil {
+				return nil, err
+			}
+			return left.(object.Map).Append(right.(object.Map)), nil
 		case a.How == "shrunk": // sized for and filled with five more entries, deleted again
 			m = object.NewMapSize(len(ps) + len(c12Pads))
 		case a.How == "dupkeys" && len(ps) > 0: // sized for more pairs than it has keys
@@ -537,6 +653,7 @@ type c12Form struct {
 	tag    string // as named by OrderLaws!FormTag
 	params string // "" = top level (a and b are replaced by the variables)
 	prolog string
+	epilog string
 	call   func(fn, vi, vj string) string
 }
 
@@ -546,6 +663,15 @@ var c12Forms = []c12Form{
 	// a is a parameter (an integer lives in a register), b a plain local value taken out of an array
 	{pfx: "l", tag: "register_left", params: "a,w", prolog: "b=w[0];", call: func(fn, vi, vj string) string { return fn + "(" + vi + ",[" + vj + "])" }},
 	{pfx: "r", tag: "register_right", params: "b,w", prolog: "a=w[0];", call: func(fn, vi, vj string) string { return fn + "(" + vj + ",[" + vi + "])" }},
+	// three nested calls on the stack: one operand is a variable of the outermost call which the call in between
+	// has read before (that leaves a reference to it there), the other a parameter of the innermost call, where
+	// the operators are evaluated: the operand is reached through the frames of other calls
+	{pfx: "c", tag: "captured_left", params: "a,w", prolog: "zqg=func(){zqt=a;zqi=func(b){", epilog: "};zqi(w[0])};zqg()",
+		call: func(fn, vi, vj string) string { return fn + "(" + vi + ",[" + vj + "])" }},
+	// the same through the call stack of a recursion: the operand is a variable of the call two levels up (a
+	// function sees the variables of its callers), the level in between has read it before
+	{pfx: "d", tag: "caller_right", params: "zqn,w", prolog: "if zqn==3 {b=w[0]};if zqn==2 {zqt=b};if zqn>1 {return self(zqn-1,w)};a=w[1];",
+		call: func(fn, vi, vj string) string { return fn + "(3,[" + vj + "," + vi + "])" }},
 }
 
 func c12FormByTag(tag string) *c12Form {
@@ -628,6 +754,57 @@ func (z *c12Sess) evalList(t *c12Table, exprs []string, ctx string, decode func(
 	return res
 }
 
+// pairAtOnce records all source-level observations of the pair (i, j) from one input; false when
+// that input does not evaluate to the expected shape (then nothing was recorded).
+func (z *c12Sess) pairAtOnce(t *c12Table, i, j int, vi, vj string, ident []string, decode7 func(int, object.Object) int) bool {
+	var parts []string
+	for _, f := range c12Forms {
+		if f.params == "" {
+			var exprs []string
+			for _, op := range c12OpText {
+				exprs = append(exprs, strings.NewReplacer("a", vi, "b", vj).Replace(op))
+			}
+			exprs = append(exprs, "min(["+vi+","+vj+"])", "max(["+vi+","+vj+"])")
+			parts = append(parts, "["+strings.Join(exprs, ",")+"]")
+			continue
+		}
+		parts = append(parts, f.call("zq"+f.pfx+"f", vi, vj))
+	}
+	if st, _ := z.run("zqr = [" + strings.Join(parts, ",") + "]"); st != 0 {
+		return false
+	}
+	o, st := z.get("zqr")
+	if st != 0 {
+		return false
+	}
+	all, isArr := o.(object.Array)
+	if !isArr || all.Len() != len(c12Forms) {
+		return false
+	}
+	rows := make([][]object.Object, len(c12Forms))
+	for k, e := range all.Elements() {
+		row, isArr := object.Value(e).(object.Array)
+		want := 7
+		if c12Forms[k].params == "" {
+			want = 9
+		}
+		if !isArr || row.Len() != want {
+			return false
+		}
+		rows[k] = row.Elements()
+	}
+	for k, f := range c12Forms {
+		for q, op := range c12Ops7 {
+			t.M[f.pfx+op][i][j] = decode7(q, rows[k][q])
+		}
+		if f.params == "" {
+			t.M["mn"][i][j] = c12Which(rows[k][7], ident[i], ident[j])
+			t.M["mx"][i][j] = c12Which(rows[k][8], ident[i], ident[j])
+		}
+	}
+	return true
+}
+
 // c12Quiet points file descriptor 2 at /dev/null until restore is called: repl.EvalOne logs every
 // panic it recovers (one line per comparison of two quotes on this tree) through grol's logger.
 func c12Quiet() (restore func()) {
@@ -661,9 +838,9 @@ func c12Evaluate(u []c12Val, src string) (*c12Table, error) {
 		if f.params == "" {
 			continue
 		}
-		defs := []string{fmt.Sprintf("zq%sf = func(%s){%s[%s]}", f.pfx, f.params, f.prolog, strings.Join(c12OpText, ","))}
+		defs := []string{fmt.Sprintf("zq%sf = func(%s){%s[%s]%s}", f.pfx, f.params, f.prolog, strings.Join(c12OpText, ","), f.epilog)}
 		for k, op := range c12OpText {
-			defs = append(defs, fmt.Sprintf("zq%sf%d = func(%s){%s%s}", f.pfx, k, f.params, f.prolog, op))
+			defs = append(defs, fmt.Sprintf("zq%sf%d = func(%s){%s%s%s}", f.pfx, k, f.params, f.prolog, op, f.epilog))
 		}
 		for _, d := range defs {
 			if st, msg := z.run(d); st != 0 {
@@ -678,6 +855,7 @@ func c12Evaluate(u []c12Val, src string) (*c12Table, error) {
 	cops := make([]object.Object, n)
 	ident := make([]string, n) // structural identity of the value as the real code built it
 	unbound := make([]bool, n)
+	srcObjs := make([]object.Object, n) // the values as evaluated from their source text
 	maxEp := 0
 	for _, a := range u {
 		maxEp = max(maxEp, a.epoch())
@@ -730,7 +908,17 @@ func c12Evaluate(u []c12Val, src string) (*c12Table, error) {
 				if st != 0 {
 					return nil, fmt.Errorf("reading back %s failed", name)
 				}
+				if pfx == "zqv" {
+					srcObjs[i] = object.Value(o)
+				}
 				if got := c12Abstract(o).canon(); got != ident[i] {
+					if c12Written(a) {
+						// a number written in a notation of its own: what the interpreter reads it as is under
+						// test (observations xc / xe: the constructed object against the value of the source
+						// text, and every operator on the variable), not a premise of the harness
+						t.notePanic("the source text %s evaluates to %s, the universe value is %s", c12Source(a), got, ident[i])
+						continue
+					}
 					return nil, fmt.Errorf("source %q evaluates to %s, the constructed object is %s", c12Source(a), got, ident[i])
 				}
 			}
@@ -750,6 +938,10 @@ func c12Evaluate(u []c12Val, src string) (*c12Table, error) {
 		}
 		return c12Bool(o)
 	}
+	srcText := make([]string, n)
+	for i, a := range u {
+		srcText[i] = c12Source(a)
+	}
 	for i := 0; i < n; i++ {
 		for j := 0; j < n; j++ {
 			// constructed objects
@@ -757,7 +949,12 @@ func c12Evaluate(u []c12Val, src string) (*c12Table, error) {
 			t.M["eq"][i][j] = c12GoEq(objs[i], objs[j], t)
 			t.M["look"][i][j] = c12GoLook(objs[i], objs[j], t)
 			vi, vj := "zqv"+strconv.Itoa(i+1), "zqv"+strconv.Itoa(j+1)
-			ctx := fmt.Sprintf("%s=%s %s=%s", vi, c12Source(u[i]), vj, c12Source(u[j]))
+			ctx := fmt.Sprintf("%s=%s %s=%s", vi, srcText[i], vj, srcText[j])
+			// first everything about the pair in one input: [[the operators at top level, min, max], the call of
+			// each context function]; context by context (and operator by operator) when that fails
+			if z.pairAtOnce(t, i, j, vi, vj, ident, decode7) {
+				continue
+			}
 			for _, f := range c12Forms {
 				var exprs []string
 				if f.params == "" { // top level: the operators on the variables, and min / max
@@ -798,7 +995,7 @@ func c12Evaluate(u []c12Val, src string) (*c12Table, error) {
 						st, msg := z.run("zqr = " + call)
 						if st != 0 {
 							t.M[f.pfx+op][i][j] = st
-							t.notePanic("func(%s){%s%s} called as %s with %s: %s", f.params, f.prolog, c12OpText[k], call, ctx, msg)
+							t.notePanic("func(%s){%s%s%s} called as %s with %s: %s", f.params, f.prolog, c12OpText[k], f.epilog, call, ctx, msg)
 							continue
 						}
 						o, st := z.get("zqr")
@@ -813,22 +1010,30 @@ func c12Evaluate(u []c12Val, src string) (*c12Table, error) {
 		}
 	}
 	// copies
-	for _, name := range []string{"cc", "ec", "scc", "sec", "big", "sbig", "bigr", "sbigr"} {
+	for _, name := range []string{"cc", "ec", "xc", "xe", "scc", "sec", "big", "sbig", "bigr", "sbigr", "gbig", "sgbig", "gbigr", "sgbigr"} {
 		t.V[name] = make([]int, n)
 	}
 	for i := 0; i < n; i++ {
 		t.V["cc"][i] = c12GoCmp(objs[i], cops[i], t)
 		t.V["ec"][i] = c12GoEq(objs[i], cops[i], t)
+		// the constructed object against the value the interpreter made of the source text
+		t.V["xc"][i], t.V["xe"][i] = 0, 1
+		if srcObjs[i] != nil {
+			t.V["xc"][i] = c12GoCmp(objs[i], srcObjs[i], t)
+			t.V["xe"][i] = c12GoEq(objs[i], srcObjs[i], t)
+		}
 		vi, wi := "zqv"+strconv.Itoa(i+1), "zqw"+strconv.Itoa(i+1)
 		res := z.evalList(t, []string{vi + "<=" + wi + " && " + wi + "<=" + vi, vi + "==" + wi}, vi+"="+c12Source(u[i]),
 			func(_ int, o object.Object) int { return c12Bool(o) })
 		t.V["scc"][i], t.V["sec"][i] = res[0], res[1]
 	}
-	// one map holding every value as key (set in index order, and in reverse order): constructed,
-	// and as a map literal from source.  When building it panics, the panic is recorded (-1) at the
+	// one map holding every value as key (set in index order, and in reverse order): constructed
+	// (sized for all keys / grown from the empty map), and from source (as a map literal / as the
+	// empty map and one assignment per key).  When building it panics, the panic is recorded (-1) at the
 	// values that cannot even be compared with themselves and the map is built from the others, so
 	// that one bad kind of value does not hide what the map does with the rest.
-	for _, rev := range []bool{false, true} {
+	for _, variant := range []struct{ rev, grown bool }{{false, false}, {true, false}, {false, true}, {true, true}} {
+		rev, grown := variant.rev, variant.grown
 		order := make([]int, n)
 		for i := range order {
 			order[i] = i
@@ -837,8 +1042,11 @@ func c12Evaluate(u []c12Val, src string) (*c12Table, error) {
 			}
 		}
 		gname, sname := "big", "sbig"
+		if grown { // the map starts empty and receives one key after the other (it changes representation on the way)
+			gname, sname = "gbig", "sgbig"
+		}
 		if rev {
-			gname, sname = "bigr", "sbigr"
+			gname, sname = gname+"r", sname+"r"
 		}
 		goMap := func(skip []bool) (ok bool) {
 			defer func() {
@@ -848,6 +1056,9 @@ func c12Evaluate(u []c12Val, src string) (*c12Table, error) {
 				}
 			}()
 			m := object.NewMapSize(n)
+			if grown {
+				m = object.NewMap()
+			}
 			for _, i := range order {
 				if !skip[i] {
 					m = m.Set(objs[i], object.Integer{Value: int64(i + 1)})
@@ -871,7 +1082,15 @@ func c12Evaluate(u []c12Val, src string) (*c12Table, error) {
 					gets[i] = fmt.Sprintf("zqbig[zqv%d]", i+1)
 				}
 			}
-			st, msg := z.run("zqbig = {" + strings.Join(parts, ",") + "}")
+			lit := "zqbig = {" + strings.Join(parts, ",") + "}"
+			if grown { // zqbig = {} and one assignment per key
+				lit = "zqbig = {}"
+				for _, part := range parts {
+					kv := strings.SplitN(part, ":", 2)
+					lit += "\nzqbig[" + kv[0] + "] = " + kv[1]
+				}
+			}
+			st, msg := z.run(lit)
 			if st == 0 {
 				st, msg = z.run("zqr = [" + strings.Join(gets, ",") + "]")
 			}
@@ -1014,8 +1233,10 @@ func c12LawHolds(t *c12Table, law, info string, x, y, z int) bool {
 			return c != 99
 		case "copy":
 			return t.V["cc"][x] != 99 && t.V["ec"][x] != 9 && t.V["scc"][x] != 9 && t.V["sec"][x] != 9
-		case "big", "sbig", "bigr", "sbigr":
+		case "big", "sbig", "bigr", "sbigr", "gbig", "sgbig", "gbigr", "sgbigr":
 			return t.V[info][x] != -1
+		case "written":
+			return t.V["xc"][x] != 99 && t.V["xe"][x] != 9
 		}
 		if m, ok := t.M[info]; ok {
 			return m[x][y] != 9
@@ -1081,10 +1302,16 @@ func c12LawHolds(t *c12Table, law, info string, x, y, z int) bool {
 		if info == "eqs" {
 			return t.V["sec"][x] == 1 || t.V["sec"][x] >= 8
 		}
+		if info == "written" {
+			return t.V["xe"][x] == 1 || t.V["xe"][x] == 9
+		}
 		return t.V["ec"][x] == 1 || t.V["ec"][x] == 9
 	case "copy_equivalent":
 		if info == "le" {
 			return t.V["scc"][x] == 1 || t.V["scc"][x] >= 8
+		}
+		if info == "written" {
+			return t.V["xc"][x] == 0 || t.V["xc"][x] == 99
 		}
 		return t.V["cc"][x] == 0 || t.V["cc"][x] == 99
 	case "trans_le":
@@ -1128,7 +1355,9 @@ func c12CheckInstance(t *c12Table, law, info string, x, y, z int) (bool, string)
 			return true, ""
 		}
 		how := map[string]string{"big": "built with Map.Set in index order", "sbig": "written as a map literal in index order",
-			"bigr": "built with Map.Set in reverse order", "sbigr": "written as a map literal in reverse order"}[info]
+			"bigr": "built with Map.Set in reverse order", "sbigr": "written as a map literal in reverse order",
+			"gbig": "grown from the empty map with Map.Set in index order", "sgbig": "m = {} and one assignment m[value_i] = i per key, in index order",
+			"gbigr": "grown from the empty map with Map.Set in reverse order", "sgbigr": "m = {} and one assignment m[value_i] = i per key, in reverse order"}[info]
 		if g == 0 {
 			return false, fmt.Sprintf("law bigmap_lookup_equivalent(%s): in the map {value_i: i} over the %d values of the universe (%s) the key %s is not found", info, t.N, how, c12Source(vals[x]))
 		}
@@ -1159,6 +1388,14 @@ func c12Describe(law, info string, vals []c12Val, x, y, z int, t *c12Table) stri
 		s += "(" + info + ")"
 	}
 	s += fmt.Sprintf(" broken for a = %s (%s), b = %s (%s)", a, kind(vals[x]), b, kind(vals[y]))
+	if info == "written" {
+		s += fmt.Sprintf(": the value the interpreter makes of the source text a against the constructed object (%s): cmp=%d equals=%d",
+			c12SortedCanon(vals[x]), t.V["xc"][x], t.V["xe"][x])
+		if len(t.panics) > 0 {
+			s += "; " + t.panics[0]
+		}
+		return s
+	}
 	M := t.M
 	if strings.HasPrefix(law, "trans_") {
 		s += fmt.Sprintf(", c = %s (%s)", c12Source(vals[z]), kind(vals[z]))
@@ -1222,6 +1459,39 @@ func c12Hows(a c12Val) string {
 		}
 	}
 	return s
+}
+
+// c12Same: the two universe values are the same value (OrderLaws!Same for values whose maps have no
+// equivalent keys other than identical ones): equal up to the tags and up to the order in which the
+// pairs of a map are listed.
+func c12Same(a, b c12Val) bool { return c12SortedCanon(a) == c12SortedCanon(b) }
+
+func c12SortedCanon(a c12Val) string {
+	switch a.T {
+	case "arr":
+		var parts []string
+		for _, e := range a.elems() {
+			parts = append(parts, c12SortedCanon(e))
+		}
+		return "[" + strings.Join(parts, ",") + "]"
+	case "map":
+		val := map[string]string{} // a key that is listed again gets the later value
+		var keys []string
+		for _, p := range a.pairs() {
+			k := c12SortedCanon(p[0])
+			if _, seen := val[k]; !seen {
+				keys = append(keys, k)
+			}
+			val[k] = c12SortedCanon(p[1])
+		}
+		sort.Strings(keys)
+		var parts []string
+		for _, k := range keys {
+			parts = append(parts, k+":"+val[k])
+		}
+		return "{" + strings.Join(parts, ",") + "}"
+	}
+	return a.canon()
 }
 
 // c12Leaves collects the scalar leaves of a value.
@@ -1318,9 +1588,15 @@ func c12Signature(law, info string, vals []c12Val) string {
 			}
 		}
 	}
+	if info == "written" && len(vals) > 0 { // the constructed object against the value of its source text
+		return vals[0].T + "-written-as-" + c12Hows(vals[0]) + "-" + family + suffix
+	}
 	for i := range vals {
 		for j := range vals {
-			if i < j && vals[i].canon() == vals[j].canon() && c12Hows(vals[i]) != c12Hows(vals[j]) {
+			if i < j && c12Same(vals[i], vals[j]) && c12Hows(vals[i]) != c12Hows(vals[j]) {
+				if vals[i].T == "int" || vals[i].T == "float" {
+					return "same-" + vals[i].T + "-written-differently-" + family + suffix
+				}
 				return "same-" + vals[i].T + "-built-differently-" + family + suffix
 			}
 		}
@@ -1415,11 +1691,35 @@ func c12GenFloat(r *rand.Rand) float64 {
 	}
 }
 
+// c12Notated writes a number in one of the notations of its type (or leaves it as it is).
+func c12Notated(r *rand.Rand, a c12Val) c12Val {
+	a.How = ""
+	switch a.T {
+	case "int":
+		a.How = []string{"hex", "under", "lit"}[r.Intn(3)]
+		if a.How == "lit" && a.int64() != math.MinInt64 {
+			a.How = ""
+		}
+	case "float":
+		a.How = []string{"intlit", "exp"}[r.Intn(2)]
+		if f := a.float64(); f != f || math.IsInf(f, 0) || !c12FloatNotationOK(f, a.How) {
+			a.How = ""
+		}
+	}
+	return a
+}
+
 func c12GenScalar(r *rand.Rand) c12Val {
 	switch r.Intn(12) {
 	case 0, 1, 2, 3:
+		if r.Intn(5) == 0 {
+			return c12Notated(r, c12Int(c12GenInt(r)))
+		}
 		return c12Int(c12GenInt(r))
 	case 4, 5, 6, 7:
+		if r.Intn(4) == 0 {
+			return c12Notated(r, c12Float(c12GenFloat(r)))
+		}
 		return c12Float(c12GenFloat(r))
 	case 8:
 		return c12Val{T: "bool", V: c12Raw(r.Intn(2) == 0)}
@@ -1454,7 +1754,7 @@ func c12GenValue(r *rand.Rand, depth int) c12Val {
 		return c12Arr(el)
 	}
 	n := r.Intn(4)
-	if r.Intn(12) == 0 {
+	if r.Intn(8) == 0 {
 		n = 5 + r.Intn(2) // big map
 	}
 	ps := make([][2]c12Val, n)
@@ -1494,15 +1794,22 @@ func c12Twin(a c12Val) c12Val {
 // c12Rebuilt: the same container with another construction history.
 func c12Rebuilt(r *rand.Rand, a c12Val) c12Val {
 	switch a.T {
+	case "int", "float":
+		return c12Notated(r, a)
 	case "arr":
-		a.How = []string{"", "slice"}[r.Intn(2)]
+		a.How = []string{"", "slice", "grown"}[r.Intn(3)]
 	case "map":
-		a.How = []string{"", "shrunk", "dupkeys"}[r.Intn(3)]
+		a.How = []string{"", "shrunk", "dupkeys", "grown", "merged", "merged_head", "merged_tail"}[r.Intn(7)]
 		if a.How == "dupkeys" && len(a.pairs()) == 0 {
 			a.How = "shrunk"
 		}
 	}
 	return a
+}
+
+// c12Large: a container beyond the size at which the representation changes.
+func c12Large(a c12Val) bool {
+	return (a.T == "map" && len(a.pairs()) > 4) || (a.T == "arr" && len(a.elems()) > 8)
 }
 
 // c12GenUniverse draws n values; epochs > 0 spreads them over that many + 1 epochs of the session.
@@ -1516,6 +1823,17 @@ func c12GenUniverse(r *rand.Rand, n, epochs int) []c12Val {
 			u = append(u, c12Twin(u[r.Intn(len(u))]))
 		default:
 			v := c12GenValue(r, 2)
+			if c12Large(v) && len(u)+1 < n {
+				// a container that is large enough to change representation while it is built comes with a
+				// twin that got there another way (one pair / element at a time, or as a sum)
+				w := v
+				w.How = []string{"grown", "grown", "merged", "merged_head", "merged_tail"}[r.Intn(5)]
+				if w.T == "arr" {
+					w.How = "grown"
+				}
+				u = append(u, v, w)
+				continue
+			}
 			if r.Intn(6) == 0 {
 				v = c12Rebuilt(r, v)
 			}
@@ -1631,6 +1949,7 @@ func checkC12(c *Ctx) {
 		return
 	}
 	tables = append(tables, cur)
+	c.Cov("curated_eval_s", time.Since(t0).Seconds())
 	// values of several epochs of one session: made before / after a function is redefined, a
 	// constant rebound, many functions defined (OrderLaws!HistoryUniverse)
 	hist, err := c12Evaluate(ex.history, "history")
@@ -1640,6 +1959,7 @@ func checkC12(c *Ctx) {
 	}
 	tables = append(tables, hist)
 	c.Cov("history_universe_size", len(ex.history))
+	c.Cov("curated_and_history_eval_s", time.Since(t0).Seconds())
 	nRandom, randSize := c.Pick(6, 120), c.Pick(24, 32)
 	for k := 0; k < nRandom; k++ {
 		u := c12GenUniverse(c.Rng, randSize, (k%2)*2) // every other one spread over three epochs of its session
@@ -1693,6 +2013,23 @@ func checkC12(c *Ctx) {
 		}()})
 	}
 
+	// binding self-test, the last batch of the same run: one corrupted entry of a table must be reported
+	// (the model's own table is the base: it is clean whatever the code under test does)
+	mtab, err := c12TableFromJSON(modelTable)
+	if err != nil {
+		c.Infra(fmt.Errorf("model table: %w", err))
+		return
+	}
+	sab := c12Sub(mtab, 12)
+	sab.Src = "selftest"
+	sab.M["cmp"][0][1], sab.M["cmp"][1][0] = 1, 1 // both "greater": not antisymmetric
+	if err := enc.Encode(sab); err != nil {
+		c.Infra(err)
+		return
+	}
+	sabBatch := len(tables) + 2 // as TLC counts: the model, the recorded tables, this one
+	pairs += int64(sab.N * sab.N)
+
 	if d := os.Getenv("C12_DUMP"); d != "" { // debugging aid: keep the recorded tables
 		_ = os.WriteFile(d, buf.Bytes(), 0o644)
 	}
@@ -1709,7 +2046,7 @@ func checkC12(c *Ctx) {
 		return
 	}
 	c.Cov("table_run_s", time.Since(t0).Seconds())
-	c.AddTraces(pairs - int64(n*n)) // pair records of the real code (the model batch is not one)
+	c.AddTraces(pairs - int64(n*n) - int64(sab.N*sab.N)) // pair records of the real code (the model and self-test batches are not)
 	c.Cov("exhaustive", true)
 	em, err := c12ReadEmitted(r.Emitted)
 	if err != nil {
@@ -1719,7 +2056,12 @@ func checkC12(c *Ctx) {
 	allBroken, disagree := em.broken, em.disagree
 	// batch 1 is the model: MC of the documented order; the recorded batches follow
 	var broken []c12Broken
+	caught := false
 	for _, b := range allBroken {
+		if b.B == sabBatch {
+			caught = caught || (b.Law == "cmp_antisymmetric" && b.X == 1 && b.Y == 2)
+			continue
+		}
 		if b.B == 1 {
 			c.Infra(fmt.Errorf("the documented order GrolOrder!Cmp breaks its own law %s on OrderUniverse at (%d,%d,%v)", b.Law, b.X, b.Y, b.Z))
 			return
@@ -1731,42 +2073,11 @@ func checkC12(c *Ctx) {
 		disagree[i].B--
 	}
 	c.Note("MC of the documented order: GrolOrder!Cmp satisfies every law on the %d-value universe (%d pairs, %d triples)", n, n*n, n*n*n)
-	c12Report(c, tables, broken, disagree)
-
-	// 4. binding self-test: one corrupted entry of a recorded table must be reported.
-	// (the model's own table is the base: it is clean whatever the code under test does)
-	mtab, err := c12TableFromJSON(modelTable)
-	if err != nil {
-		c.Infra(fmt.Errorf("model table: %w", err))
-		return
-	}
-	sab := c12Sub(mtab, 12)
-	sab.Src = "random"
-	sab.M["cmp"][0][1], sab.M["cmp"][1][0] = 1, 1 // both "greater": not antisymmetric
-	var sbuf bytes.Buffer
-	_ = json.NewEncoder(&sbuf).Encode(sab)
-	r, err = c.TLC(TLCOpt{Spec: "OrderLaws", Cfg: c12Cfg("table", tier, false), Workers: 1,
-		Files: map[string][]byte{"order_table.ndjson": sbuf.Bytes()}})
-	if err != nil {
-		c.Infra(err)
-		return
-	}
-	sem, err := c12ReadEmitted(r.Emitted)
-	if err != nil {
-		c.Infra(err)
-		return
-	}
-	sbroken := sem.broken
-	caught := false
-	for _, b := range sbroken {
-		if b.Law == "cmp_antisymmetric" && b.X == 1 && b.Y == 2 {
-			caught = true
-		}
-	}
 	if !caught {
 		c.Infra(fmt.Errorf("vacuous binding: a table with cmp[1][2] and cmp[2][1] of the same sign was accepted"))
 		return
 	}
+	c12Report(c, tables, broken, disagree)
 	c.Cov("sabotage_rejected", true)
 }
 
